@@ -119,9 +119,15 @@ def judge(evs, violations, stats):
             if st == 'retry' and ev.run.get('force_timeouts') is not None and ev.exc['__exc__'] == 'ValueError':
                 pass                                 # judged against the model of caller_reducer in judge_retry
             elif CK.is_fusion_align_crash(ev):
-                stats['fusion_align_crash'] += 1     # nothing is emitted: C01 owns the finding
+                # nothing is emitted (soundness holds vacuously) but the abort is reported as the known finding it
+                # is, so that a replay of such a case shows a known hit instead of passing silently
+                stats['fusion_align_crash'] += 1
+                violations.append({'what': 'callVariant aborts while fitting the fusion graph into codons (IndexError in align_variants): nothing is emitted',
+                                   'replay_obj': CK.replay_obj(ev, 'crash'), 'no_input': False, 'finding': CK.F_FUSALIGN})
             elif CK.is_fusion_crash(ev):
-                stats['fusion_crash'] += 1           # nothing is emitted: C01 owns the finding
+                stats['fusion_crash'] += 1
+                violations.append({'what': 'callVariant aborts while building the fusion graph (ValueError in expand_alignments): nothing is emitted',
+                                   'replay_obj': CK.replay_obj(ev, 'crash'), 'no_input': False, 'finding': CK.F_FUSCRASH})
             else:
                 violations.append({'what': 'callVariant aborted with %s (%s)' % (ev.exc['__exc__'], ev.exc.get('msg', '')[:120]),
                                    'replay_obj': CK.replay_obj(ev, 'crash'), 'no_input': False})
